@@ -43,8 +43,9 @@ class Monitor:
         self.frames = []
         self.max_items_seen = 0
 
-    def install(self, stack_limits):
+    def install(self, stack_limits, call_limit=None):
         self.limits = stack_limits
+        self.call_limit = call_limit
         self.saved = (dict(F.opcodes), dict(F.nopcodes))
         mon = self
 
@@ -78,6 +79,12 @@ class Monitor:
             self.violations.append('pointer moved backwards %d -> %d in %s' % (p0, tape.pointer, getattr(fn, '__name__', '?')))
         if tape.pointer > len(tape.data):
             self.violations.append('pointer %d past end %d' % (tape.pointer, len(tape.data)))
+        if self.call_limit is not None:
+            # every tape of the run — top level, sub-tapes, later scripts of run_auth_scripts — is under the embedder's call limit
+            if tape.callstack_limit != self.call_limit:
+                self.violations.append('a tape runs under callstack_limit %r, the run was given %r' % (tape.callstack_limit, self.call_limit))
+            elif type(tape.callstack_count) is int and tape.callstack_count > max(0, self.call_limit):
+                self.violations.append('call counter %d exceeds callstack_limit %d' % (tape.callstack_count, self.call_limit))
 
 
 def str_snapshot(cache):
@@ -95,7 +102,7 @@ def direct_oracles(script, cache_vals, cfg, want):
     tsh.Pins.now = cfg.now
     mon = Monitor()
     del tsh.WatchDeque.drops[:]
-    mon.install((cfg.max_items, cfg.max_item_size))
+    mon.install((cfg.max_items, cfg.max_item_size), cfg.limit)
     cache_in = {'timestamp': cfg.now, **cache_vals}
     before = str_snapshot(cache_in)
     esc = None
@@ -127,6 +134,38 @@ def direct_oracles(script, cache_vals, cfg, want):
             diff = {k: (before.get(k), after.get(k)) for k in set(before) | set(after) if before.get(k) != after.get(k)}
             out['C08'] = ['str-keyed cache entries changed: ' + repr(diff)[:300]]
     return out
+
+
+def direct_oracles_auth(scripts, cache_vals, cfg):
+    """C07 on run_auth_scripts: the same per-instruction monitors while a LIST of scripts runs (the limits hold in every script)"""
+    import copy
+    cache_vals = copy.deepcopy(cache_vals)
+    log = tsh.Log()
+    tsh.Pins.ridx = 0
+    tsh.Pins.now = cfg.now
+    mon = Monitor()
+    del tsh.WatchDeque.drops[:]
+    mon.install((cfg.max_items, cfg.max_item_size), cfg.limit)
+    esc = None
+    try:
+        tsh._Capture.top = None
+        tsh._Capture.depth = 0
+        with tsh.Watch():
+            try:
+                F.run_auth_scripts(list(scripts), cache_vals, cfg.contract_objs(log), cfg.plugins(log),
+                                   cfg.max_items, cfg.max_item_size, cfg.limit)
+            except tsh.ImplTimeout:
+                raise
+            except BaseException as e:
+                esc = e
+    finally:
+        mon.uninstall()
+    if tsh.Watch.fired:
+        return ['the scripts did not end within the per-case watchdog (%.0f s)' % tsh.Watch().seconds]
+    v = list(mon.violations) + list(tsh.WatchDeque.drops[:2])
+    if esc is not None:
+        v.append('run_auth_scripts raised ' + type(esc).__name__)
+    return v[:3]
 
 
 def c08_alias_probes():
@@ -210,6 +249,17 @@ def run_task(task):
                 if len(violations[pid]) < 5:
                     violations[pid].append(dict(case=case, what=v, seed=seed, index=i))
                 stats['direct-violation-' + pid] += 1
+        if 'C07' in want and i % 5 == 0:
+            # the same limits while a list of scripts runs: a short first script, then the program (loops / recursion in a later script)
+            pre = rng.choice([b'', b'\x01' + gen.op('POP0'), gen.push(b'\x03'), g.program(1, 2)])
+            scr = [pre, prog] if rng.random() < 0.8 else [pre, g.program(1, 3), prog]
+            stats['auth-mode-monitored'] += 1
+            va = direct_oracles_auth(scr, cv, cfg)
+            if va:
+                stats['direct-violation-C07'] += 1
+                if len(violations['C07']) < 5:
+                    violations['C07'].append(dict(case=dict(scripts=[x.hex() for x in scr], cache=tsh.cache_str(cv, False), cfg=cfg.to_json()),
+                                                  what=va, seed=seed, index=i))
         if i < 2:
             samples.append(dict(case=case, impl=iline[:300]))
         if (i < 40 or i % 97 == 0) and not iline.startswith(('timeout', 'recursion')):
